@@ -393,3 +393,265 @@ Proof.
   - do 3 eexists. split; [vm_compute; reflexivity|]. split; [vm_compute; reflexivity|].
     exists 0%Z, 0%Z. split; [auto|reflexivity].
 Qed.
+
+(* ====================================================================================================
+   Answers to the referee report design/reviews/C10.md (proofs: Tx/RecoverProofs5.v, Tx/RecoverProofs6.v)
+   ==================================================================================================== *)
+From FFS Require Import Tx.SignProofs2 Tx.RecoverProofs5 Tx.RecoverProofs6.
+
+(* 13. (referee I2) Nothing about V is lost.  With NO hypothesis on the hash function, on RecoverDirect
+       or on the chain id: whenever RecoverRawTransaction returns (a, t, p), the address a is exactly
+       RecoverDirect's answer for the signature read from the input - V reduced as the code reduces it
+       ([legacy_v_passed] of the int64 value of element 6, which is 27 or 28; the int64 value of
+       element 9 for type 0x02), r and s the integers at positions 7,8 / 10,11 - over H(p) and the
+       supplied chain id.  Every other soundness theorem of this file follows from this one and a law
+       of RecoverDirect; a model that dropped or flipped V would not satisfy it. *)
+Theorem C10_address_is_RecoverDirect_answer :
+  forall (H : bytes -> bytes) (RD : sigdata -> bytes -> Z -> res bytes) bs chain a t p,
+    RecoverRawTransaction H RD bs chain = Ok (a, t, p) ->
+    (exists l pos vb e7 e8,
+      Decode bs = Ok (Some (Lst l), pos) /\
+      nth_error l 6 = Some (Str vb) /\ nth_error l 7 = Some e7 /\ nth_error l 8 = Some e8 /\
+      let vp := legacy_v_passed (wrap64 (Z.of_N (of_be vb))) chain in
+      (vp = 27 \/ vp = 28)%Z /\
+      RD (vp, Z.of_N (elem_int e7), Z.of_N (elem_int e8)) (H p) chain = Ok a)
+    \/
+    (exists rest l pos vb e10 e11,
+      bs = x02 :: rest /\ Decode rest = Ok (Some (Lst l), pos) /\
+      nth_error l 9 = Some (Str vb) /\ nth_error l 10 = Some e10 /\ nth_error l 11 = Some e11 /\
+      RD (wrap64 (Z.of_N (of_be vb)), Z.of_N (elem_int e10), Z.of_N (elem_int e11)) (H p) chain = Ok a).
+Proof. exact RecoverRaw_call. Qed.
+Print Assumptions C10_address_is_RecoverDirect_answer.
+
+(* what [legacy_v_passed] says about the integer V written in the input: it is 27 + parity, where
+   V = 27 + parity (original form) or V = 35 + 2*chain + parity (EIP-155), modulo 2^64 *)
+Theorem C10_legacy_v_passed_parity :
+  forall vb chain,
+    let V := Z.of_N (of_be vb) in
+    let vp := legacy_v_passed (wrap64 V) chain in
+    (vp = 27 \/ vp = 28)%Z ->
+    (V_original_p V (vp - 27) \/ (~ V_original V /\ V_eip155_p V chain (vp - 27))).
+Proof. exact legacy_v_passed_parity. Qed.
+Print Assumptions C10_legacy_v_passed_parity.
+
+(* 14. (referee I2, I6) The secp256k1 family with the recovery id and the key-validity conjunct in the
+       conclusion, for EVERY chain id (no range hypothesis at all).  For every group satisfying the
+       ECDSA laws and every 32-byte hash, whenever an address is returned:
+       - legacy: there is a parity par in {0,1} such that the V written in the input is 27+par
+         (original form) or 35+2*chain+par (EIP-155, not also of the original form), modulo 2^64, and
+         the key q is THE point [ecdsa_recover] computes from (H(p), r, s) with y-parity par - a
+         function, so the mirror key of the other parity is excluded -, q is not the point at
+         infinity, the returned address is q's and (r,s) verify for q;
+       - type 0x02: the same with the parity C05's getVNormalized ([Secp.Proofs.v_norm]) assigns to
+         the int64 value of element 9 for the supplied chain (0/1, 27/28, EIP-155 forms). *)
+Theorem C10_sound_secp256k1_recovery_id :
+  forall (o : Crypto.Ecdsa.group_ops), Crypto.Ecdsa.laws o ->
+  forall (H : bytes -> bytes), (forall x, length (H x) = 32%nat) ->
+    forall bs chain a t p,
+      RecoverRawTransaction H (RD_secp o H) bs chain = Ok (a, t, p) ->
+      (exists l pos vb e7 e8 par q,
+        Decode bs = Ok (Some (Lst l), pos) /\
+        nth_error l 6 = Some (Str vb) /\ nth_error l 7 = Some e7 /\ nth_error l 8 = Some e8 /\
+        (par = 0 \/ par = 1)%Z /\
+        (V_original_p (Z.of_N (of_be vb)) par \/
+         (~ V_original (Z.of_N (of_be vb)) /\ V_eip155_p (Z.of_N (of_be vb)) chain par)) /\
+        Crypto.Ecdsa.ecdsa_recover o (Secp.Model.hash_to_z (H p))
+          (Z.of_N (elem_int e7)) (Z.of_N (elem_int e8)) (par =? 1)%Z = Some q /\
+        q <> Crypto.Ecdsa.zero o /\ a = secp_addr_of o H q /\
+        secp_verify o q (H p) (Z.of_N (elem_int e7)) (Z.of_N (elem_int e8)))
+      \/
+      (exists rest l pos vb e10 e11 vB q,
+        bs = x02 :: rest /\ Decode rest = Ok (Some (Lst l), pos) /\
+        nth_error l 9 = Some (Str vb) /\ nth_error l 10 = Some e10 /\ nth_error l 11 = Some e11 /\
+        Secp.Proofs.v_norm (wrap64 (Z.of_N (of_be vb))) chain = Some vB /\ (vB = 27 \/ vB = 28)%Z /\
+        Crypto.Ecdsa.ecdsa_recover o (Secp.Model.hash_to_z (H p))
+          (Z.of_N (elem_int e10)) (Z.of_N (elem_int e11)) (vB =? 28)%Z = Some q /\
+        q <> Crypto.Ecdsa.zero o /\ a = secp_addr_of o H q /\
+        secp_verify o q (H p) (Z.of_N (elem_int e10)) (Z.of_N (elem_int e11))).
+Proof. exact secp_recovery_id. Qed.
+Print Assumptions C10_sound_secp256k1_recovery_id.
+
+(* 15. (referee I5) The access-list refutation for EVERY hash function and EVERY RecoverDirect that
+       accepts the witness signature (V = 0, r = s = 1 over H(payload), chain 1): the input
+       0x02 || rlp([1,0,0,0,0,"",0,"",[[]],0,1,1]) is accepted with that address, and its payload is
+       not the specification preimage of the returned fields.  (Theorem 4 exhibited one H and RD.) *)
+Theorem C10_sound_refuted_every_RecoverDirect :
+  forall (H : bytes -> bytes) (RD : sigdata -> bytes -> Z -> res bytes) a,
+    RD (0%Z, 1%Z, 1%Z) (H al_payload) 1%Z = Ok a ->
+    exists t, RecoverRawTransaction H RD al_witness 1 = Ok (a, t, al_payload) /\
+      al_payload <> spec_preimage Eip1559 (norm t) 1.
+Proof. exact refuted_every_RD. Qed.
+Print Assumptions C10_sound_refuted_every_RecoverDirect.
+
+(* 16. (referee I3) Canonical inputs are read as the SPECIFICATION says - no decoder in the statement.
+       [spec_signed fm f c y r s] (Tx/Spec.v) is the signed transaction written from the Yellow Paper /
+       EIP-155 / EIP-1559 over the Yellow-Paper RLP.  For every format, every field tuple of the
+       property's range ([fields_in_range]: integers below 2^256, destination absent or 20 bytes,
+       data of at most 2^31-1024 bytes), every chain id 0 <= chain < 2^61, y in {0,1}, r, s < 2^256,
+       every hash and every RecoverDirect: the model's result on those bytes IS RecoverDirect's answer
+       for (V, r, s) over H(spec_preimage fm f c) - V = 27+y for the legacy formats, y for type 0x02 -
+       with the fields f and the preimage (acceptance and soundness at once: an equation). *)
+Theorem C10_canonical_input_accepted :
+  forall (H : bytes -> bytes) (RD : sigdata -> bytes -> Z -> res bytes) fm f chain y r s,
+    fields_in_range f -> (0 <= chain < 2 ^ 61)%Z -> (y = 0 \/ y = 1)%N ->
+    (r < 2 ^ 256)%N -> (s < 2 ^ 256)%N ->
+    let c := Z.to_N chain in
+    let pre := spec_preimage fm f c in
+    RecoverRawTransaction H RD (spec_signed fm f c y r s) chain =
+      do a <- RD (v_seen fm (27 + Z.of_N y), Z.of_N r, Z.of_N s) (H pre) chain;
+      Ok (a, recovered_tx fm f, pre).
+Proof. exact canonical_input_accepted. Qed.
+Print Assumptions C10_canonical_input_accepted.
+
+(* the fields of the returned transaction are f (the fee fields the format does not carry read as 0) *)
+Theorem C10_canonical_input_fields :
+  forall fm f,
+    norm (recovered_tx fm f) =
+    match fm with
+    | Eip1559 => mkFields (f_nonce f) 0 (f_maxPrio f) (f_maxFee f) (f_gasLimit f) (f_to f) (f_value f) (f_data f)
+    | _ => mkFields (f_nonce f) (f_gasPrice f) 0 0 (f_gasLimit f) (f_to f) (f_value f) (f_data f)
+    end.
+Proof. exact norm_recovered_tx. Qed.
+Print Assumptions C10_canonical_input_fields.
+
+(* 17. (referee I3 + I2) The same with C05's secp256k1 layer: on a canonical input, a returned address
+       is the address of THE key ecdsa_recover computes from (H(spec_preimage), r, s) with the
+       specification's y-parity y; the payload is the specification preimage. *)
+Theorem C10_canonical_input_secp256k1 :
+  forall (o : Crypto.Ecdsa.group_ops), Crypto.Ecdsa.laws o ->
+  forall (H : bytes -> bytes), (forall x, length (H x) = 32%nat) ->
+  forall fm f chain y r s a t p,
+    fields_in_range f -> (0 <= chain < 2 ^ 61)%Z -> (y = 0 \/ y = 1)%N ->
+    (r < 2 ^ 256)%N -> (s < 2 ^ 256)%N ->
+    let c := Z.to_N chain in
+    RecoverRawTransaction H (RD_secp o H) (spec_signed fm f c y r s) chain = Ok (a, t, p) ->
+    t = recovered_tx fm f /\ p = spec_preimage fm f c /\
+    exists q,
+      Crypto.Ecdsa.ecdsa_recover o (Secp.Model.hash_to_z (H p)) (Z.of_N r) (Z.of_N s) (y =? 1)%N = Some q /\
+      q <> Crypto.Ecdsa.zero o /\ a = secp_addr_of o H q /\
+      secp_verify o q (H p) (Z.of_N r) (Z.of_N s).
+Proof. exact canonical_input_secp. Qed.
+Print Assumptions C10_canonical_input_secp256k1.
+
+(* ---------- non-vacuity of the referee-answer theorems ---------- *)
+(* (referee I4) the secp256k1 family is not vacuous: Toy.ops satisfies [laws], toyH is a 32-byte hash,
+   and under them the model ACCEPTS a legacy EIP-155 input (chain 1, V = 38 and V = 37), a legacy
+   original-form input (V = 27) and a type-0x02 input (V = 1); the two parities V = 37 / 38 give
+   DIFFERENT addresses (so theorem 14's parity conjunct distinguishes something); r = 0 is an error. *)
+Example C10_nonvacuous_secp256k1 :
+  Crypto.Ecdsa.laws Crypto.Ecdsa.Toy.ops /\ (forall x, length (toyH x) = 32%nat) /\
+  let RD := RD_secp Crypto.Ecdsa.Toy.ops toyH in
+  let legacy v r s := [xc9; x01; x02; x03; x80; x04; x80; v; r; s] in
+  let a_of bs := match RecoverRawTransaction toyH RD bs 1 with Ok (a, _, _) => Some a | _ => None end in
+  (exists a t p, RecoverRawTransaction toyH RD (legacy x26 x02 x03) 1 = Ok (a, t, p) /\
+     p = spec_preimage Eip155 (norm t) 1) /\
+  (exists a t p, RecoverRawTransaction toyH RD (legacy x1b x02 x03) 1 = Ok (a, t, p) /\
+     p = spec_preimage Original (norm t) 0) /\
+  (exists a t p, RecoverRawTransaction toyH RD
+     [x02; xcc; x01; x05; x02; x03; x04; x80; x06; x80; xc0; x01; x02; x03] 1 = Ok (a, t, p) /\
+     p = spec_preimage Eip1559 (norm t) 1) /\
+  a_of (legacy x25 x02 x03) <> None /\ a_of (legacy x25 x02 x03) <> a_of (legacy x26 x02 x03) /\
+  is_err (RecoverRawTransaction toyH RD (legacy x26 x80 x03) 1) = true.
+Proof.
+  split; [exact Crypto.Ecdsa.Toy.toy_laws|]. split; [exact toyH_len|]. cbv zeta.
+  split; [do 3 eexists; split; [vm_compute; reflexivity|vm_compute; reflexivity]|].
+  split; [do 3 eexists; split; [vm_compute; reflexivity|vm_compute; reflexivity]|].
+  split; [do 3 eexists; split; [vm_compute; reflexivity|vm_compute; reflexivity]|].
+  split; [vm_compute; discriminate|]. split; [vm_compute; discriminate|]. vm_compute; reflexivity.
+Qed.
+
+(* the model CAN return Panic: with a RecoverDirect that panics (the hypothesis of C10_total fails) an
+   otherwise accepted input gives Panic - so "<> Panic" is not true by construction of the result
+   type, and the hypothesis of theorem 1 is used *)
+Example C10_panic_is_possible :
+  RecoverRawTransaction H_triv RD_panic [xc9; x01; x02; x03; x80; x04; x80; x25; x01; x01] 1 = Panic /\
+  idx ([] : list item) 0 = Panic /\ IntInt64 None = Panic /\ lslice ([] : list item) 0 6 = Panic.
+Proof. vm_compute. auto. Qed.
+
+(* theorems 16/17 are not vacuous: a field tuple of the range exists, and the canonical EIP-155 input
+   for it is the byte string of C10_nonvacuous_legacy; under the toy secp layer it is accepted *)
+Example C10_nonvacuous_canonical :
+  let f := mkFields 1 2 0 0 3 None 4 [] in
+  fields_in_range f /\
+  spec_signed Eip155 f 1 1 2 3 = [xc9; x01; x02; x03; x80; x04; x80; x26; x02; x03] /\
+  spec_signed Eip1559 (mkFields 5 0 2 3 4 None 6 []) 1 1 2 3 =
+    [x02; xcc; x01; x05; x02; x03; x04; x80; x06; x80; xc0; x01; x02; x03] /\
+  exists a, RD_secp Crypto.Ecdsa.Toy.ops toyH (38%Z, 2%Z, 3%Z) (toyH (spec_preimage Eip155 f 1)) 1 = Ok a.
+Proof.
+  cbv zeta. split.
+  - unfold fields_in_range.
+    cbn [f_nonce f_gasPrice f_maxPrio f_maxFee f_gasLimit f_value f_to f_data length].
+    split; [reflexivity|]. split; [reflexivity|]. split; [reflexivity|]. split; [reflexivity|].
+    split; [reflexivity|]. split; [reflexivity|]. split; [exact I|apply Nat.le_0_l].
+  - split; [vm_compute; reflexivity|]. split; [vm_compute; reflexivity|]. eexists. vm_compute. reflexivity.
+Qed.
+
+(* 18. (referee I3, the "++ rest" of the suggested statement) Bytes after the RLP element are ignored:
+       for every item within the decoder's accepted region ([size_ok]: every string and list payload
+       at most 2^31-1 bytes) and every suffix, each entry point returns on the item's encoding
+       followed by the suffix exactly what it returns without it (proofs: Tx/RecoverProofs7.v over
+       C06_decode_encode). *)
+From FFS Require Import Tx.RecoverProofs7.
+Theorem C10_trailing_bytes_ignored :
+  forall (H : bytes -> bytes) (RD : sigdata -> bytes -> Z -> res bytes) (l : list item) (i : item)
+         (rest : bytes) (chain : Z),
+    size_ok (Lst l) = true -> size_ok i = true ->
+    RecoverRawTransaction H RD (encode (Lst l) ++ rest) chain = RecoverRawTransaction H RD (encode (Lst l)) chain /\
+    RecoverRawTransaction H RD (x02 :: encode i ++ rest) chain = RecoverRawTransaction H RD (x02 :: encode i) chain /\
+    RecoverLegacyRawTransaction H RD (encode i ++ rest) chain = RecoverLegacyRawTransaction H RD (encode i) chain /\
+    RecoverEIP1559Transaction H RD (x02 :: encode i ++ rest) chain =
+      RecoverEIP1559Transaction H RD (x02 :: encode i) chain /\
+    DecodeEIP1559SignaturePayload (x02 :: encode i ++ rest) chain =
+      DecodeEIP1559SignaturePayload (x02 :: encode i) chain.
+Proof.
+  exact (fun H RD l i rest chain Hl Hi =>
+    conj (trailing_ignored_raw_list H RD l rest chain Hl)
+   (conj (trailing_ignored_raw_typed H RD i rest chain Hi)
+   (conj (trailing_ignored_legacy H RD i rest chain Hi)
+   (conj (trailing_ignored_eip1559 H RD x02 i rest chain Hi)
+         (trailing_ignored_decode_payload x02 i rest chain Hi))))).
+Qed.
+Print Assumptions C10_trailing_bytes_ignored.
+
+(* 19. Theorems 16 and 17 with arbitrary bytes after the transaction - the referee's statement of I3. *)
+Theorem C10_canonical_input_accepted_with_suffix :
+  forall (H : bytes -> bytes) (RD : sigdata -> bytes -> Z -> res bytes) fm f chain y r s rest,
+    fields_in_range f -> (0 <= chain < 2 ^ 61)%Z -> (y = 0 \/ y = 1)%N ->
+    (r < 2 ^ 256)%N -> (s < 2 ^ 256)%N ->
+    let c := Z.to_N chain in
+    let pre := spec_preimage fm f c in
+    RecoverRawTransaction H RD (spec_signed fm f c y r s ++ rest) chain =
+      do a <- RD (v_seen fm (27 + Z.of_N y), Z.of_N r, Z.of_N s) (H pre) chain;
+      Ok (a, recovered_tx fm f, pre).
+Proof. exact canonical_input_accepted_rest. Qed.
+Print Assumptions C10_canonical_input_accepted_with_suffix.
+
+Theorem C10_canonical_input_secp256k1_with_suffix :
+  forall (o : Crypto.Ecdsa.group_ops), Crypto.Ecdsa.laws o ->
+  forall (H : bytes -> bytes), (forall x, length (H x) = 32%nat) ->
+  forall fm f chain y r s rest a t p,
+    fields_in_range f -> (0 <= chain < 2 ^ 61)%Z -> (y = 0 \/ y = 1)%N ->
+    (r < 2 ^ 256)%N -> (s < 2 ^ 256)%N ->
+    let c := Z.to_N chain in
+    RecoverRawTransaction H (RD_secp o H) (spec_signed fm f c y r s ++ rest) chain = Ok (a, t, p) ->
+    t = recovered_tx fm f /\ p = spec_preimage fm f c /\
+    exists q,
+      Crypto.Ecdsa.ecdsa_recover o (Secp.Model.hash_to_z (H p)) (Z.of_N r) (Z.of_N s) (y =? 1)%N = Some q /\
+      q <> Crypto.Ecdsa.zero o /\ a = secp_addr_of o H q /\
+      secp_verify o q (H p) (Z.of_N r) (Z.of_N s).
+Proof. exact canonical_input_secp_rest. Qed.
+Print Assumptions C10_canonical_input_secp256k1_with_suffix.
+
+(* theorem 18 is not vacuous and not trivial: a suffix after an accepted legacy input leaves it accepted
+   (same result), while a suffix after the single byte 0x02 - which is the encoding of the STRING [0x02],
+   not of a list - changes the result (error -> accepted): the list hypothesis of the first conjunct
+   is needed *)
+Example C10_nonvacuous_trailing :
+  let bs := [xc9; x01; x02; x03; x80; x04; x80; x25; x01; x01] in
+  RecoverRawTransaction H_triv RD_triv (bs ++ [xff; x00]) 1 = RecoverRawTransaction H_triv RD_triv bs 1 /\
+  is_err (RecoverRawTransaction H_triv RD_triv bs 1) = false /\
+  encode (Str [x02]) = [x02] /\
+  is_err (RecoverRawTransaction H_triv RD_triv (encode (Str [x02])) 1) = true /\
+  is_err (RecoverRawTransaction H_triv RD_triv
+            (encode (Str [x02]) ++ [xcc; x01; x05; x02; x03; x04; x80; x06; x80; xc0; x01; x07; x08]) 1) = false.
+Proof. vm_compute. auto. Qed.
